@@ -129,6 +129,7 @@ private:
             const KeyDeclaration&           kd,
             XalanNode*                      testNode,
             const PrefixResolver&           resolver,
+            MutableNodeRefList&             contextNodeList,
             StylesheetExecutionContext&     executionContext);
 
     /**
